@@ -350,3 +350,8 @@ fn c08_residual_from_parts_sums() {
 pub(crate) fn set_sum_quotients(r: &mut Residual, v: usize) {
     r.sum_quotients = v;
 }
+
+pub(crate) fn set_block_and_warmup(r: &mut Residual, block_size: usize, warmup_length: usize) {
+    r.block_size = block_size;
+    r.warmup_length = warmup_length;
+}
